@@ -46,6 +46,8 @@ int g_found_kind;                  /* which of the two table names exists (set b
 #endif
 void c_repair_table(ldb_repair_t *rep, const char *src, ldb_tabinfo_t *t)
 __CPROVER_requires(rep == g_rep && __CPROVER_rw_ok(t, sizeof(*t)))
+/* src is remembered as the 'pinned' name: repair_table formats other names before it archives src */
+__CPROVER_requires(src == g_pin_buf && g_pin_kind == g_nm_kind && g_pin_num == g_nm_num)
 __CPROVER_requires(src == g_nm_buf && g_nm_kind == g_found_kind && (g_nm_kind == LDB_FILE_TABLE || g_nm_kind == NM_SST) && g_nm_num == t->meta.number)
 __CPROVER_assigns(g_rt_calls, g_rt_t, rep->next_file_number, t->meta.file_size, g_nm_buf, g_nm_kind, g_nm_num, REP_ARCH_GHOST REP_RT_EXTRA)
 /* t is consumed exactly once (registered in rep->tables or destroyed); the allocator only moves forward */
